@@ -69,6 +69,12 @@ Theorem fifteen_digits_identity : forall mant ex : Z, ndig mant <= SIG -> round_
 Proof. exact (round_sig_small SIG). Qed.
 Print Assumptions fifteen_digits_identity.
 
+(* ... and longer ones are first rounded half-up to 15 significant digits (sigfig on the repr digits) *)
+Theorem fifteen_digits_rounding : forall mant ex : Z, SIG < ndig mant ->
+  round_sig SIG mant ex = (rhu_at mant ex (ex + ndig mant - SIG), ex + ndig mant - SIG).
+Proof. exact (round_sig_big SIG). Qed.
+Print Assumptions fifteen_digits_rounding.
+
 (* decoration only: whatever the separator, negative style, percent sign - the digits and the decimal
    point of the text are those of the plain rounded number *)
 Theorem decoration_only : forall (is_int : bool) (d : dec) (places : Z) (sep : bool) (ns : Z) (pct : bool),
@@ -129,6 +135,26 @@ Theorem auto_int_display : forall (d : dec) (places : Z) (sep : bool) (ns : Z) (
   readback_decimal (format_decimal true d places sep ns pct) = Some (shown_negative_auto d ns n, n, 0).
 Proof. exact auto_int_lemma. Qed.
 Print Assumptions auto_int_display.
+
+(* a non-integer value with automatic places (positional notation): all the digits of the value rounded
+   to 15 significant digits and no trailing zero - except the single ".0" Python prints when the rounding
+   produced an integer (0.57 as a percentage: 56.99999999999999 -> "57.0%").
+   m * 10^e are the digits of the rounded value m1 * 10^e1 without trailing zeros. *)
+Theorem auto_fraction_display : forall (is_int : bool) (d : dec) (places : Z) (sep : bool) (ns : Z) (pct : bool),
+  AUTO <= places -> 0 < dmant d ->
+  let vn := fst (value_rat is_int (dmant d) (dexp d)) in
+  let vd := snd (value_rat is_int (dmant d) (dexp d)) in
+  let m1 := fst (round_sig SIG (dmant d) (dexp d)) in
+  let e1 := snd (round_sig SIG (dmant d) (dexp d)) in
+  let m := fst (strip0 (Z.to_nat (ndig m1)) m1 e1) in
+  let e := snd (strip0 (Z.to_nat (ndig m1)) m1 e1) in
+  vn mod vd <> 0 -> positional sep m e = true ->
+  let M := if 0 <=? e then m * 10 ^ (e + 1) else m in
+  let P := if 0 <=? e then 1 else - e in
+  readback_decimal (format_decimal is_int d places sep ns pct) = Some (shown_negative d ns 1, M, P) /\
+  m1 = m * 10 ^ (e - e1) /\ e1 <= e /\ (e < 0 -> m mod 10 <> 0).
+Proof. exact auto_fraction_lemma. Qed.
+Print Assumptions auto_fraction_display.
 
 (* open finding auto-integer:ge2^53.  Full statement: a float whose decimal is an integer is shown digit
    for digit.  It holds below 2^53 (_partial) and fails above (_refuted: 0.754499470762295e15 as a
@@ -234,13 +260,11 @@ Theorem fraction_error_bound : forall acc vn vd : Z, 0 <= vn -> 0 < vd -> 0 < ac
 Proof. exact fraction_numerator_error. Qed.
 Print Assumptions fraction_error_bound.
 
-(* digit-limited accuracies (up to 1, 2, 3 digits).  Proved: Fraction.limit_denominator's loop always
-   ends (fuel suffices), the denominator shown is within 1 .. 10^k - 1, the text reads back as exactly
-   the fraction p/q the algorithm chose, which is not below the whole part.
-   NOT proved here (fraction_display_closest, the full statement): p/q is a closest fraction to vn/vd
-   among denominators <= 10^k - 1; it needs the Farey-neighbour argument for the two candidates.  The
-   implementation-only oracle checks it by brute force over all denominators on every run. *)
-Theorem fraction_digits_display_partial : forall (is_int : bool) (d : dec) (acc : Z),
+(* digit-limited accuracies (up to 1, 2, 3 digits): Fraction.limit_denominator's loop always ends (the
+   fuel suffices), the denominator shown is within 1 .. 10^k - 1, the text reads back as exactly the
+   fraction p/q the algorithm chose, and p/q is a closest fraction to the value vn/vd among ALL fractions
+   a'/b' with a denominator up to 10^k - 1 (Farey-neighbour argument on the two candidates). *)
+Theorem fraction_digits_display : forall (is_int : bool) (d : dec) (acc : Z),
   0 <= dmant d -> Z.land acc 4278190080 <> 0 -> 0 <= 4294967296 - acc -> 1 <= 10 ^ (4294967296 - acc) - 1 ->
   let vn := fst (value_rat is_int (dmant d) (dexp d)) in
   let vd := snd (value_rat is_int (dmant d) (dexp d)) in
@@ -249,9 +273,17 @@ Theorem fraction_digits_display_partial : forall (is_int : bool) (d : dec) (acc 
     limit_denominator vn vd maxd = Some (p, q) /\ 1 <= q <= maxd /\
     format_fraction is_int d acc = Ok s /\ readback_fraction s = Some (neg, w, a, b) /\
     0 < b /\ (w * b + a) * q = p * b /\ (a = 0 \/ b = q) /\
-    (neg = true -> is_neg d = true) /\ (is_neg d = true -> neg = false -> p = 0).
+    (neg = true -> is_neg d = true) /\ (is_neg d = true -> neg = false -> p = 0) /\
+    (forall a' b', 1 <= b' <= maxd -> Z.abs (vn * q - vd * p) * b' <= Z.abs (vn * b' - vd * a') * q).
 Proof. exact fraction_digits_lemma. Qed.
-Print Assumptions fraction_digits_display_partial.
+Print Assumptions fraction_digits_display.
+
+(* the same statement about Fraction.limit_denominator itself *)
+Theorem limit_denominator_is_closest : forall n0 d0 maxd p q : Z, 0 <= n0 -> 0 < d0 -> 1 <= maxd ->
+  limit_denominator n0 d0 maxd = Some (p, q) ->
+  forall a b, 1 <= b <= maxd -> Z.abs (n0 * q - d0 * p) * b <= Z.abs (n0 * b - d0 * a) * q.
+Proof. exact limit_denominator_closest. Qed.
+Print Assumptions limit_denominator_is_closest.
 
 (* ---------------------------------------------------------------- star rating *)
 Theorem rating_display : forall (is_int : bool) (d : dec),
@@ -260,6 +292,19 @@ Theorem rating_display : forall (is_int : bool) (d : dec),
   readback_rating (format_rating is_int d) = if dneg d then 0 else vn / vd.
 Proof. exact rating_lemma. Qed.
 Print Assumptions rating_display.
+
+(* ---------------------------------------------------------------- custom format strings *)
+(* _expand_quotes removes nothing but quote characters: the digits and the decimal point of a formatted
+   custom number pass through unchanged; a string without quotes is returned as it is *)
+Theorem expand_quotes_keeps_digits : forall (s : list N) (b : bool),
+  filter is_dd (expand_quotes s b) = filter is_dd s.
+Proof. exact expand_quotes_digits. Qed.
+Print Assumptions expand_quotes_keeps_digits.
+
+Theorem expand_quotes_without_quotes : forall (s : list N) (b : bool),
+  Forall (fun c => (c =? 39)%N = false) s -> expand_quotes s b = s.
+Proof. exact expand_quotes_id. Qed.
+Print Assumptions expand_quotes_without_quotes.
 
 (* ---------------------------------------------------------------- the binary64 value *)
 
